@@ -275,7 +275,7 @@ type c12Prog struct {
 // prints one observation line per read.
 func c12GenProgram(r *rand.Rand, id int) (string, []map[string]any) {
 	var b strings.Builder
-	b.WriteString("package main\n\n")
+	b.WriteString("package main\n\nimport \"errors\"\n\nvar _ = errors.New\n\n")
 	// filler names shift the interned indices of the field names that follow
 	nf := r.Intn(40)
 	if nf > 0 {
@@ -290,7 +290,11 @@ func c12GenProgram(r *rand.Rand, id int) (string, []map[string]any) {
 		nfields = []int{5, 11, 12, 13, 24, 25}[r.Intn(6)]
 	}
 	nmeth := []int{0, 1, 3, 8, 20}[r.Intn(5)]
-	types := []string{"int", "string", "bool", "byte", "float64"}
+	// nillable field types are observed through "is nil": their zero value is nil, also for any
+	types := []string{"int", "string", "bool", "byte", "float64", "any", "*T", "[]int", "map[string]int", "error", "int", "string"}
+	nillable := func(ty string) bool {
+		return ty == "any" || ty == "*T" || ty == "[]int" || ty == "map[string]int" || ty == "error"
+	}
 	ftypes := make([]string, nfields)
 	b.WriteString("type T struct {\n")
 	for i := 0; i < nfields; i++ {
@@ -301,8 +305,17 @@ func c12GenProgram(r *rand.Rand, id int) (string, []map[string]any) {
 	b.WriteString("type U T\n\n")
 	methField := make([]int, nmeth)
 	for m := 0; m < nmeth; m++ {
+		f := -1
 		if nfields > 0 {
-			f := r.Intn(nfields)
+			f = r.Intn(nfields)
+			for tries := 0; tries < 20 && nillable(ftypes[f]); tries++ {
+				f = r.Intn(nfields)
+			}
+			if nillable(ftypes[f]) {
+				f = -1
+			}
+		}
+		if f >= 0 {
 			methField[m] = f
 			fmt.Fprintf(&b, "func (t *T) M%d() %s { return t.F%d }\n", m, ftypes[f], f)
 		} else {
@@ -336,8 +349,24 @@ func c12GenProgram(r *rand.Rand, id int) (string, []map[string]any) {
 			return fmt.Sprint(n%2 == 1), fmt.Sprint(n%2 == 1)
 		case "byte":
 			return fmt.Sprint(n % 256), fmt.Sprint(n % 256)
+		case "any":
+			return []string{"nil", fmt.Sprint(n), "\"a\"", "false", "0", "&T{}"}[n%6], fmt.Sprint(n%6 == 0)
+		case "*T":
+			return []string{"nil", "&T{}"}[n%2], fmt.Sprint(n%2 == 0)
+		case "[]int":
+			return []string{"nil", "[]int{}", "[]int{1}"}[n%3], fmt.Sprint(n%3 == 0)
+		case "map[string]int":
+			return []string{"nil", "map[string]int{}"}[n%2], fmt.Sprint(n%2 == 0)
+		case "error":
+			return []string{"nil", "errors.New(\"e\")"}[n%2], fmt.Sprint(n%2 == 0)
 		}
 		return fmt.Sprintf("%d.5", n), fmt.Sprintf("%d.5", n)
+	}
+	readExpr := func(v string, f int) string {
+		if nillable(ftypes[f]) {
+			return fmt.Sprintf("%s.F%d == nil", v, f)
+		}
+		return fmt.Sprintf("%s.F%d", v, f)
 	}
 	for i := 0; i < nops; i++ {
 		v := r.Intn(len(vars))
@@ -351,7 +380,7 @@ func c12GenProgram(r *rand.Rand, id int) (string, []map[string]any) {
 			evs = append(evs, map[string]any{"op": "write", "var": v + 1, "f": f, "val": printed})
 		case nfields > 0 && x < 85:
 			f := r.Intn(nfields)
-			fmt.Fprintf(&b, "\tprintln(\"R\", %d, %s.F%d)\n", len(evs), vars[v], f)
+			fmt.Fprintf(&b, "\tprintln(\"R\", %d, %s)\n", len(evs), readExpr(vars[v], f))
 			evs = append(evs, map[string]any{"op": "read", "var": v + 1, "f": f})
 		case nmeth > 0 && x < 90:
 			m := r.Intn(nmeth)
@@ -365,7 +394,7 @@ func c12GenProgram(r *rand.Rand, id int) (string, []map[string]any) {
 		default:
 			// read every field of the instance (independence check)
 			for f := 0; f < nfields; f++ {
-				fmt.Fprintf(&b, "\tprintln(\"R\", %d, %s.F%d)\n", len(evs), vars[v], f)
+				fmt.Fprintf(&b, "\tprintln(\"R\", %d, %s)\n", len(evs), readExpr(vars[v], f))
 				evs = append(evs, map[string]any{"op": "read", "var": v + 1, "f": f})
 			}
 			if nfields == 0 {
@@ -492,6 +521,8 @@ func c12Zeros(src string) []string {
 				out = append(out, "")
 			case "bool":
 				out = append(out, "false")
+			default: // nillable: observed as "is nil"
+				out = append(out, "true")
 			}
 		}
 	}
